@@ -439,4 +439,772 @@ Section DirThms.
                         | H : merge3 _ _ _ = _ |- _ => rewrite H
                         end; reflexivity].
   Qed.
+
+  (* C14_conflict_reported, directory overlays *)
+  Theorem dir_conflict_reported o w ov ov' rep bl r ours b u m :
+    dir_run o w ov ov' rep bl ->
+    lookup r (ov_files ov) = Some ours -> bl_files bl r = Some b -> w_up w r = Some u ->
+    ours <> b -> u <> b -> ours <> u -> merge3 b ours u = Some (m, true) ->
+    In r (conflicts rep) /\ In r (updated rep) /\ (dry_run o = false -> lookup r (ov_files ov') = Some m).
+  Proof.
+    intros Hrun Hlk Hb Hup H1 H2 H3 Hm.
+    destruct (rebase_dir_at _ _ _ _ _ _ _ _ Hrun Hlk) as (a & t & cf & Hf & Hl' & Hu & Hdl & Hs & Hc).
+    unfold dfile, rebase_dir_file in Hf. rewrite Hb, Hup in Hf.
+    destruct (bl_base bl r) as [b'|]; [|discriminate].
+    destruct (str_eqb b' b) eqn:E; simpl in Hf; [|discriminate]. apply str_eqb_eq in E. subst b'.
+    rewrite (proj2 (str_eqb_neq _ _) H1), (proj2 (str_eqb_neq _ _) H2), (proj2 (str_eqb_neq _ _) H3), Hm in Hf.
+    rewrite Bool.andb_false_r in Hf. simpl in Hf. inversion Hf; subst.
+    rewrite Hl'. split; [apply Hc; reflexivity|]. split; [apply Hu; reflexivity|].
+    intros Hd. unfold do_write. rewrite Hd. reflexivity.
+  Qed.
+
+  Theorem dir_conflict_only_if o w ov ov' rep bl r :
+    dir_run o w ov ov' rep bl -> In r (conflicts rep) ->
+    exists ours b u m, lookup r (ov_files ov) = Some ours /\ bl_files bl r = Some b /\ w_up w r = Some u /\
+                       ours <> b /\ u <> b /\ ours <> u /\ merge3 b ours u = Some (m, true).
+  Proof.
+    intros (Hk & Hnd & Hbl & Hrun) Hin.
+    destruct (rebase_dir_spec _ _ _ _ _ _ _ _ Hk Hnd Hrun) as (bl' & Hbl' & _ & _ & _ & _ & _ & _ & S6 & _).
+    rewrite Hbl in Hbl'. inversion Hbl'; subst bl'.
+    apply S6 in Hin as (ours & a & t & Hlk & Hf). unfold dfile in Hf.
+    split_dir Hf; inversion Hf; subst; eqb_prop; subst; try discriminate;
+      do 4 eexists; repeat split; try eassumption; try reflexivity; congruence.
+  Qed.
+
+  Lemma cmd_of_rebase json yes o w ov ov' rep :
+    (json && negb yes && negb (dry_run o)) = false -> rebase o w ov = (ov', inr rep) ->
+    overlay_rebase_cmd merge3 git_apply diff json yes o w ov =
+    (ov', match conflicts rep with [] => COk rep | _ => CConflict (conflicts rep) rep end).
+  Proof.
+    intros Hg Hr. unfold overlay_rebase_cmd. rewrite Hg, Hr. destruct (conflicts rep); reflexivity.
+  Qed.
+
+  Lemma cmd_refused o w ov :
+    dry_run o = false ->
+    overlay_rebase_cmd merge3 git_apply diff true false o w ov = (ov, CErr code_confirm_required).
+  Proof. intros Hd. unfold overlay_rebase_cmd. rewrite Hd. reflexivity. Qed.
+
+  (* ---- the dry run ---- *)
+  Definition strip (x : fout) : str + (tag * bool) :=
+    match x with FErr c => inl c | FOk _ t cf => inr (t, cf) end.
+
+  Lemma dir_file_dry_same s ib base ours upstream :
+    strip (rebase_dir_file merge3 (mkOpts true s) ib base ours upstream) =
+    strip (rebase_dir_file merge3 (mkOpts false s) ib base ours upstream).
+  Proof.
+    unfold rebase_dir_file, do_write, do_delete; simpl.
+    repeat (match goal with
+            | |- context[match ?x with _ => _ end] =>
+              lazymatch x with context[match _ with _ => _ end] => fail | _ => destruct x eqn:? end
+            end; simpl); reflexivity.
+  Qed.
+
+  Lemma dir_file_dry_keep s ib base ours upstream a t cf :
+    rebase_dir_file merge3 (mkOpts true s) ib base ours upstream = FOk a t cf -> a = AKeep.
+  Proof. intros H. split_dir H; inversion H; reflexivity. Qed.
+
+  Lemma dir_loop_dry s bl base up : forall todo st1 st2 rep,
+    dir_loop merge3 (mkOpts true s) bl base up todo st1 rep =
+    (st1, snd (dir_loop merge3 (mkOpts false s) bl base up todo st2 rep)).
+  Proof.
+    induction todo as [|[r ours] rest IH]; intros st1 st2 rep; simpl; [reflexivity|].
+    pose proof (dir_file_dry_same s (bl r) (base r) ours (up r)) as Hs.
+    destruct (rebase_dir_file merge3 (mkOpts true s) (bl r) (base r) ours (up r)) as [c|a t cf] eqn:E1;
+      destruct (rebase_dir_file merge3 (mkOpts false s) (bl r) (base r) ours (up r)) as [c2|a2 t2 cf2] eqn:E2;
+      simpl in Hs; try discriminate Hs.
+    - inversion Hs; reflexivity.
+    - inversion Hs; subst. apply dir_file_dry_keep in E1. subst a. simpl. apply IH.
+  Qed.
+
+  Theorem dir_dry s w ov :
+    ov_kind ov = KDir ->
+    rebase (mkOpts true s) w ov = (ov, snd (rebase (mkOpts false s) w ov)).
+  Proof.
+    intros Hk. unfold rebase_overlay. rewrite Hk.
+    destruct (ov_exists ov) eqn:Hex; simpl; [|reflexivity].
+    destruct (ov_baseline ov) as [bl|] eqn:Hbl; [|reflexivity].
+    destruct (negb (nilb (ov_files ov)) && negb (nilb (patch_files_of ov))); [reflexivity|].
+    destruct (negb (nilb (patch_files_of ov))); [reflexivity|].
+    destruct (bl_rev bl); [|reflexivity].
+    rewrite (dir_loop_dry s (bl_files bl) (bl_base bl) (w_up w) _ (ov_files ov) (ov_files ov) empty_report).
+    destruct (dir_loop merge3 (mkOpts false s) (bl_files bl) (bl_base bl) (w_up w) (isort entry_leb (ov_files ov)) (ov_files ov) empty_report)
+      as [fs [c|rep]]; simpl; destruct ov; simpl in *; subst; reflexivity.
+  Qed.
+
+  (* ---- sparsify ---- *)
+  Theorem dir_sparsify w ov ovs reps ovn repn bl r :
+    dir_run (mkOpts false true) w ov ovs reps bl -> dir_run (mkOpts false false) w ov ovn repn bl ->
+    materialize_dir (ov_files ovs) (w_up w) r = materialize_dir (ov_files ovn) (w_up w) r.
+  Proof.
+    intros Hs Hn. destruct (lookup r (ov_files ov)) as [ours|] eqn:Hlk.
+    - destruct (bl_files bl r) as [b|] eqn:Hb.
+      + rewrite (dir_cases _ _ _ _ _ _ _ _ _ Hs eq_refl Hlk Hb), (dir_cases _ _ _ _ _ _ _ _ _ Hn eq_refl Hlk Hb). reflexivity.
+      + destruct (dir_untracked _ _ _ _ _ _ _ _ Hs Hlk Hb) as [H1 _].
+        destruct (dir_untracked _ _ _ _ _ _ _ _ Hn Hlk Hb) as [H2 _].
+        unfold materialize_dir. rewrite H1, H2. reflexivity.
+    - rewrite (dir_not_overlaid _ _ _ _ _ _ _ Hs Hlk), (dir_not_overlaid _ _ _ _ _ _ _ Hn Hlk). reflexivity.
+  Qed.
+
+  (* a file removed from the overlay was tracked, and upstream itself is what the module must
+     materialise to there *)
+  Theorem dir_deleted_equals_upstream o w ov ov' rep bl r ours :
+    dir_run o w ov ov' rep bl -> dry_run o = false ->
+    lookup r (ov_files ov) = Some ours -> lookup r (ov_files ov') = None ->
+    exists b, bl_files bl r = Some b /\ expected merge3 b ours (w_up w r) = w_up w r /\ In r (deleted rep) /\
+              (ours <> b -> sparsify o = true).
+  Proof.
+    intros Hrun Hd Hlk Hl'.
+    destruct (bl_files bl r) as [b|] eqn:Hb.
+    - exists b. split; [reflexivity|].
+      pose proof (dir_cases _ _ _ _ _ _ _ _ _ Hrun Hd Hlk Hb) as Hc.
+      unfold materialize_dir in Hc. rewrite Hl' in Hc. split; [symmetry; exact Hc|].
+      destruct (rebase_dir_at _ _ _ _ _ _ _ _ Hrun Hlk) as (a & t & cf & Hf & Hl2 & Hu & Hdl & Hs & Hcf).
+      rewrite Hl' in Hl2. unfold dfile in Hf. rewrite Hb in Hf.
+      split_dir Hf; inversion Hf; subst; simpl in Hl2; try discriminate Hl2; eqb_prop; subst;
+        (split; [apply Hdl; reflexivity|intros; congruence]).
+    - destruct (dir_untracked _ _ _ _ _ _ _ _ Hrun Hlk Hb) as [H1 _]. congruence.
+  Qed.
+
+  (* ---- idempotence ---- *)
+
+  (* after a conflict-free pass whose baseline was refreshed (new manifest = new base = upstream), the
+     second pass keeps every file; no merge is attempted (the oracle [merge3'] is arbitrary) *)
+  Lemma dir_file_second merge3' o ib base ours upstream a t c1 :
+    rebase_dir_file merge3 o ib base ours upstream = FOk a t false -> dry_run o = false ->
+    after a (Some ours) = Some c1 ->
+    (sparsify o = true -> ib = None -> upstream <> Some ours) ->
+    exists t', rebase_dir_file merge3' o upstream upstream c1 upstream = FOk AKeep t' false /\
+               (t' = TNone \/ t' = TSkipped).
+  Proof.
+    intros H Hd Ha Hk.
+    split_dir H; inversion H; subst; clear H; simpl in Ha; inversion Ha; subst; clear Ha; eqb_prop; subst;
+      unfold rebase_dir_file, do_write, do_delete;
+      repeat (match goal with
+              | |- context[match ?x with _ => _ end] =>
+                lazymatch x with context[match _ with _ => _ end] => fail | _ => destruct x eqn:? end
+              end; simpl);
+      eqb_prop; subst; try congruence;
+      try solve [eexists; split; [reflexivity|auto]];
+      try solve [exfalso; eapply Hk; eauto; congruence];
+      try solve [simpl in *; discriminate].
+  Qed.
+
+  Lemma dir_loop_keep mg o bl base up : forall todo st rep,
+    (forall r c, In (r, c) todo -> exists t, rebase_dir_file mg o (bl r) (base r) c (up r) = FOk AKeep t false /\
+                                              (t = TNone \/ t = TSkipped)) ->
+    exists rep', dir_loop mg o bl base up todo st rep = (st, inr rep') /\
+                 updated rep' = updated rep /\ deleted rep' = deleted rep /\ conflicts rep' = conflicts rep.
+  Proof.
+    induction todo as [|[r c] rest IH]; intros st rep H; simpl.
+    - exists rep. repeat split; reflexivity.
+    - destruct (H r c (or_introl eq_refl)) as (t & Hf & Ht). rewrite Hf. simpl.
+      destruct (IH st (add_rep r t false rep)) as (rep' & Hl & H1 & H2 & H3).
+      { intros r' c' Hin. apply H. right. exact Hin. }
+      exists rep'. split; [exact Hl|]. rewrite H1, H2, H3. destruct Ht; subst t; repeat split; reflexivity.
+  Qed.
+
+  (* the class excluded from idempotence (known finding K14b): under --sparsify, an overlay file the
+     old baseline does not track is byte-identical to the upstream file of the same name *)
+  Definition K14b (o : opts) (w : world) (ov : overlay) (bl : baseline) : Prop :=
+    sparsify o = true /\
+    exists r c, lookup r (ov_files ov) = Some c /\ bl_files bl r = None /\ w_up w r = Some c.
+
+  Theorem dir_idempotent merge3' o w ov ov1 rep1 bl :
+    dir_run o w ov ov1 rep1 bl -> dry_run o = false -> conflicts rep1 = [] ->
+    (forall r, w_head w r = w_up w r) -> w_rev w <> None ->
+    ~ K14b o w ov bl ->
+    exists rep2, rebase_overlay merge3' git_apply diff o w ov1 = (ov1, inr rep2) /\
+                 updated rep2 = [] /\ deleted rep2 = [] /\ conflicts rep2 = [].
+  Proof.
+    intros Hrun Hd Hnc Hclean Hrev Hk.
+    pose proof Hrun as (Hkind & Hnd & Hbl & Hr).
+    destruct (rebase_dir_spec _ _ _ _ _ _ _ _ Hkind Hnd Hr)
+      as (bl' & Hbl' & Hex & S1 & S2 & _ & _ & _ & S6 & Hov1 & Hnd1 & Hnp & _).
+    rewrite Hbl in Hbl'. inversion Hbl'; subst bl'. clear Hbl'.
+    unfold refreshed in Hov1. rewrite Hd in Hov1.
+    assert (Hkeep : forall r c, In (r, c) (isort entry_leb (ov_files ov1)) ->
+              exists t, rebase_dir_file merge3' o (w_up w r) (w_head w r) c (w_up w r) = FOk AKeep t false /\
+                        (t = TNone \/ t = TSkipped)).
+    { intros r c1 Hin. apply In_isort in Hin. apply In_lookup in Hin; [|exact Hnd1].
+      rewrite S1 in Hin. destruct (lookup r (ov_files ov)) as [ours|] eqn:Hlk; [|discriminate].
+      destruct (S2 _ _ Hlk) as (a & t & cf & Hf). rewrite Hf in Hin.
+      assert (cf = false).
+      { destruct cf; [|reflexivity]. assert (Hin' : In r (conflicts rep1)) by (apply S6; eauto).
+        rewrite Hnc in Hin'. destruct Hin'. }
+      subst cf. rewrite Hclean. unfold dfile in Hf.
+      eapply dir_file_second; try eassumption.
+      intros Hsp Hib Hup. apply Hk. split; [exact Hsp|]. exists r, ours. auto. }
+    destruct (dir_loop_keep merge3' o (w_up w) (w_head w) (w_up w) _ (ov_files ov1) empty_report Hkeep)
+      as (rep' & Hloop & H1 & H2 & H3).
+    exists (sort_report rep').
+    destruct ov1 as [e1 k1 f1 p1 c1 b1]. simpl in *. inversion Hov1; subst e1 k1 p1 c1 b1. clear Hov1.
+    unfold rebase_overlay. simpl. unfold patch_files_of in *. simpl. rewrite Hnp. rewrite Bool.andb_false_r. simpl.
+    destruct (w_rev w) eqn:Hw; [|congruence].
+    rewrite Hloop. unfold refreshed. rewrite Hd. simpl. rewrite Hw.
+    split; [reflexivity|].
+    simpl. rewrite H1, H2, H3. simpl. repeat split; reflexivity.
+  Qed.
 End DirThms.
+
+(* ====================================================================================== *)
+(* patch overlays *)
+
+Lemma strip_prefix_some p : forall x r, strip_prefix p x = Some r -> x = p ++ r.
+Proof.
+  induction p as [|a p IH]; intros x r H; simpl in H.
+  - inversion H. reflexivity.
+  - destruct x as [|b x]; [discriminate|]. destruct (a =? b) eqn:E; [|discriminate].
+    apply N.eqb_eq in E. subst b. simpl. f_equal. apply IH, H.
+Qed.
+
+Lemma strip_suffix_some p x r : strip_suffix p x = Some r -> x = r ++ p.
+Proof.
+  unfold strip_suffix. destruct (strip_prefix (rev p) (rev x)) as [q|] eqn:E; [|discriminate].
+  intros H. inversion H; subst. apply strip_prefix_some in E.
+  rewrite <- (rev_involutive x), E, rev_app_distr, rev_involutive. reflexivity.
+Qed.
+
+(* open every test of one rebase_patch_file result *)
+Ltac split_patch H :=
+  unfold rebase_patch_file, do_write, do_delete in H;
+  repeat (match type of H with
+          | context[match ?x with _ => _ end] =>
+            lazymatch x with
+            | context[match _ with _ => _ end] => fail
+            | _ => destruct x eqn:?
+            end
+          end; simpl in H; try discriminate H).
+
+Section Patch.
+  Variable merge3 : content -> content -> content -> option (content * bool).
+  Variable git_apply : content -> rel -> content -> option content.
+  Variable diff : rel -> content -> content -> option content.
+  Variables (o : opts) (bl base up : fmap).
+
+  Let g (rp : rel) (p : content) : pout := rebase_patch_file merge3 git_apply diff o bl base up rp p.
+
+  (* the artefact a completed loop leaves at [rt] *)
+  Fixpoint art_of (todo : files) (rt : rel) : option content :=
+    match todo with
+    | [] => None
+    | (rp, p) :: rest =>
+      match art_of rest rt with
+      | Some c => Some c
+      | None => match g rp p with
+                | POk _ (Some (r', c)) _ _ _ => if str_eqb r' rt then Some c else None
+                | _ => None
+                end
+      end
+    end.
+
+  Lemma patch_loop_ok : forall todo ps cfs rep ps' cfs' rep',
+    NoDup (keys todo) ->
+    patch_loop merge3 git_apply diff o bl base up todo ps cfs rep = (ps', cfs', inr rep') ->
+    (forall rp, lookup rp ps' =
+                match lookup rp todo with
+                | Some p => match g rp p with POk a _ _ _ _ => after a (lookup rp ps) | PErr _ => lookup rp ps end
+                | None => lookup rp ps
+                end) /\
+    (forall rp p, In (rp, p) todo -> exists a art t n cf, g rp p = POk a art t n cf) /\
+    (forall rt, lookup rt cfs' = match art_of todo rt with Some c => Some c | None => lookup rt cfs end) /\
+    (forall x, In x (updated rep') <-> In x (updated rep) \/ exists rp p a art cf, In (rp, p) todo /\ g rp p = POk a art TUpdated x cf) /\
+    (forall x, In x (deleted rep') <-> In x (deleted rep) \/ exists rp p a art cf, In (rp, p) todo /\ g rp p = POk a art TDeleted x cf) /\
+    (forall x, In x (skipped rep') <-> In x (skipped rep) \/ exists rp p a art cf, In (rp, p) todo /\ g rp p = POk a art TSkipped x cf) /\
+    (forall x, In x (conflicts rep') <-> In x (conflicts rep) \/ exists rp p a art t, In (rp, p) todo /\ g rp p = POk a art t x true).
+  Proof.
+    induction todo as [|[r0 p0] rest IH]; intros ps cfs rep ps' cfs' rep' Hnd H; simpl in H.
+    - inversion H; subst. repeat split; try tauto; try (intros [?|(?&?&?&?&?&[]&_)]; assumption).
+      intros rp p [].
+    - inversion Hnd as [|k t Hnotin Hnd']; subst.
+      fold (g r0 p0) in H. destruct (g r0 p0) as [c|a art t n cf] eqn:Eg; [discriminate|].
+      specialize (IH _ _ _ _ _ _ Hnd' H) as (IH1 & IH2 & IH3 & IH4 & IH5 & IH6 & IH7).
+      assert (Hlk : lookup r0 rest = None) by (apply lookup_None; exact Hnotin).
+      split; [|split; [|split; [|split; [|split; [|split]]]]].
+      + intros rp. simpl. destruct (str_eqb r0 rp) eqn:E.
+        * apply str_eqb_eq in E. subst rp. rewrite IH1, Hlk, Eg. apply lookup_apply_same.
+        * apply str_eqb_neq in E. rewrite IH1.
+          destruct (lookup rp rest) as [p|]; [destruct (g rp p)|]; try (rewrite lookup_apply_other by congruence); reflexivity.
+      + intros rp p [Heq|Hin]; [inversion Heq; subst; eauto 6|eauto].
+      + intros rt. rewrite IH3. simpl. destruct (art_of rest rt); [reflexivity|]. rewrite Eg.
+        destruct art as [[r' c']|]; simpl; [|reflexivity].
+        destruct (str_eqb r' rt) eqn:E.
+        * apply str_eqb_eq in E. subst. apply lookup_set_same.
+        * apply str_eqb_neq in E. apply lookup_set_other. congruence.
+      + intros x. rewrite IH4, upd_add. split.
+        * intros [[Hx|[Ht Hx]]|(rp & p & a' & art' & cf' & Hin & Hf)]; [left; exact Hx| |right; exists rp, p, a', art', cf'; split; [right; exact Hin|exact Hf]].
+          subst. right. exists r0, p0, a, art, cf. split; [left; reflexivity|exact Eg].
+        * intros [Hx|(rp & p & a' & art' & cf' & [Heq|Hin] & Hf)]; [left; left; exact Hx| |right; eauto 8].
+          inversion Heq; subst. rewrite Eg in Hf. inversion Hf; subst. left. right. auto.
+      + intros x. rewrite IH5, del_add. split.
+        * intros [[Hx|[Ht Hx]]|(rp & p & a' & art' & cf' & Hin & Hf)]; [left; exact Hx| |right; exists rp, p, a', art', cf'; split; [right; exact Hin|exact Hf]].
+          subst. right. exists r0, p0, a, art, cf. split; [left; reflexivity|exact Eg].
+        * intros [Hx|(rp & p & a' & art' & cf' & [Heq|Hin] & Hf)]; [left; left; exact Hx| |right; eauto 8].
+          inversion Heq; subst. rewrite Eg in Hf. inversion Hf; subst. left. right. auto.
+      + intros x. rewrite IH6, skp_add. split.
+        * intros [[Hx|[Ht Hx]]|(rp & p & a' & art' & cf' & Hin & Hf)]; [left; exact Hx| |right; exists rp, p, a', art', cf'; split; [right; exact Hin|exact Hf]].
+          subst. right. exists r0, p0, a, art, cf. split; [left; reflexivity|exact Eg].
+        * intros [Hx|(rp & p & a' & art' & cf' & [Heq|Hin] & Hf)]; [left; left; exact Hx| |right; eauto 8].
+          inversion Heq; subst. rewrite Eg in Hf. inversion Hf; subst. left. right. auto.
+      + intros x. rewrite IH7, cnf_add. split.
+        * intros [[Hx|[Ht Hx]]|(rp & p & a' & art' & t' & Hin & Hf)]; [left; exact Hx| |right; exists rp, p, a', art', t'; split; [right; exact Hin|exact Hf]].
+          subst. right. exists r0, p0, a, art, t. split; [left; reflexivity|exact Eg].
+        * intros [Hx|(rp & p & a' & art' & t' & [Heq|Hin] & Hf)]; [left; left; exact Hx| |right; eauto 8].
+          inversion Heq; subst. rewrite Eg in Hf. inversion Hf; subst. left. right. auto.
+  Qed.
+
+  (* an artefact is written at the patch's own target *)
+  Lemma patch_art_target rp p a rt c t n cf :
+    g rp p = POk a (Some (rt, c)) t n cf -> rp = rt ++ dot_patch /\ n = rt.
+  Proof.
+    intros H. unfold g in H. split_patch H; inversion H; subst;
+      match goal with Hs : strip_suffix dot_patch rp = Some _ |- _ => apply strip_suffix_some in Hs end; auto.
+  Qed.
+
+  Lemma patch_name rp p a art t n cf :
+    g rp p = POk a art t n cf ->
+    (strip_suffix dot_patch rp = None /\ n = rp) \/ (rp = n ++ dot_patch /\ strip_suffix dot_patch rp = Some n).
+  Proof.
+    intros H. unfold g in H. split_patch H; inversion H; subst; auto;
+      right; match goal with Hs : strip_suffix dot_patch rp = Some _ |- _ => pose proof (strip_suffix_some _ _ _ Hs) end; auto.
+  Qed.
+
+  Lemma art_of_None todo rt :
+    (forall rp p a c t n cf, In (rp, p) todo -> g rp p <> POk a (Some (rt, c)) t n cf) -> art_of todo rt = None.
+  Proof.
+    induction todo as [|[rp p] rest IH]; intros H; simpl; [reflexivity|].
+    rewrite IH by (intros; apply H; right; assumption).
+    destruct (g rp p) as [|a [[r' c]|] t n cf] eqn:E; try reflexivity.
+    destruct (str_eqb r' rt) eqn:E2; [|reflexivity]. apply str_eqb_eq in E2. subst r'.
+    exfalso. eapply H; [left; reflexivity|exact E].
+  Qed.
+
+  Lemma art_of_In todo rp p a rt c t n cf :
+    NoDup (keys todo) -> In (rp, p) todo -> g rp p = POk a (Some (rt, c)) t n cf -> art_of todo rt = Some c.
+  Proof.
+    induction todo as [|[rp0 p0] rest IH]; intros Hnd Hin Hg; [destruct Hin|].
+    inversion Hnd as [|k l Hnotin Hnd']; subst. simpl.
+    destruct Hin as [Heq|Hin].
+    - inversion Heq; subst.
+      rewrite art_of_None.
+      + rewrite Hg, str_eqb_refl. reflexivity.
+      + intros rp' p' a' c' t' n' cf' Hin' Hg'.
+        apply patch_art_target in Hg as [Hg _]. apply patch_art_target in Hg' as [Hg' _]. subst.
+        apply Hnotin. apply (in_map fst) in Hin'. exact Hin'.
+    - rewrite (IH Hnd' Hin Hg). reflexivity.
+  Qed.
+End Patch.
+
+Lemma lookup_filter_key (h : rel -> bool) l r :
+  lookup r (filter (fun kc : rel * content => h (fst kc)) l) = if h r then lookup r l else None.
+Proof.
+  induction l as [|[k c] t IH]; simpl; [destruct (h r); reflexivity|].
+  destruct (h k) eqn:Hk; simpl.
+  - destruct (str_eqb k r) eqn:E; [apply str_eqb_eq in E; subst; rewrite Hk; reflexivity|exact IH].
+  - destruct (str_eqb k r) eqn:E; [apply str_eqb_eq in E; subst; rewrite Hk in IH; rewrite Hk; exact IH|exact IH].
+Qed.
+
+Section PatchTop.
+  Variable merge3 : content -> content -> content -> option (content * bool).
+  Variable git_apply : content -> rel -> content -> option content.
+  Variable diff : rel -> content -> content -> option content.
+
+  Notation rebase := (rebase_overlay merge3 git_apply diff).
+
+  Definition pfile (o : opts) (bl : baseline) (w : world) (rp : rel) (p : content) : pout :=
+    rebase_patch_file merge3 git_apply diff o (bl_files bl) (bl_base bl) (w_up w) rp p.
+
+  (* a completed rebase of a patch overlay *)
+  Definition patch_run (o : opts) (w : world) (ov ov' : overlay) (rep : report) (bl : baseline) : Prop :=
+    ov_kind ov = KPatch /\ NoDup (keys (ov_patches ov)) /\ ov_baseline ov = Some bl /\
+    rebase o w ov = (ov', inr rep).
+
+  (* [rp] names a patch file of the overlay with text [p] *)
+  Definition is_patch (ov : overlay) (rp : rel) (p : content) : Prop :=
+    has_patch_ext rp = true /\ lookup rp (ov_patches ov) = Some p.
+
+  Lemma rebase_patch_at o w ov ov' rep bl rp p :
+    patch_run o w ov ov' rep bl -> is_patch ov rp p ->
+    exists a art t n cf, pfile o bl w rp p = POk a art t n cf /\
+      lookup rp (ov_patches ov') = after a (Some p) /\
+      (forall rt c, art = Some (rt, c) -> lookup rt (ov_conflicts ov') = Some c) /\
+      (t = TUpdated -> In n (updated rep)) /\ (t = TDeleted -> In n (deleted rep)) /\
+      (t = TSkipped -> In n (skipped rep)) /\ (cf = true -> In n (conflicts rep)).
+  Proof.
+    intros (Hk & Hnd & Hbl & H) [Hext Hlk]. unfold rebase_overlay in H.
+    destruct (ov_exists ov) eqn:Hex; simpl in H; [|inversion H].
+    rewrite Hbl in H.
+    destruct (negb (nilb (ov_files ov)) && negb (nilb (patch_files_of ov))); [inversion H|].
+    rewrite Hk in H.
+    destruct (negb (nilb (ov_files ov))); [inversion H|].
+    destruct (bl_rev bl) as [revn|]; [|inversion H].
+    destruct (patch_loop merge3 git_apply diff o (bl_files bl) (bl_base bl) (w_up w) (isort entry_leb (patch_files_of ov))
+                         (ov_patches ov) (ov_conflicts ov) empty_report) as [[ps cfs] [c|rep0]] eqn:Hloop;
+      inversion H; subst; clear H.
+    assert (Hndp : NoDup (keys (patch_files_of ov))) by (apply NoDup_filter_keys, Hnd).
+    assert (Hperm : Permutation (patch_files_of ov) (isort entry_leb (patch_files_of ov))) by apply isort_perm.
+    assert (Hnd2 : NoDup (keys (isort entry_leb (patch_files_of ov)))).
+    { eapply Permutation_NoDup; [apply Permutation_map, Hperm|exact Hndp]. }
+    assert (Hlkp : lookup rp (patch_files_of ov) = Some p).
+    { unfold patch_files_of. rewrite lookup_filter_key, Hext. exact Hlk. }
+    assert (Hlk2 : lookup rp (isort entry_leb (patch_files_of ov)) = Some p).
+    { rewrite <- Hlkp. symmetry. apply lookup_perm; assumption. }
+    assert (Hin : In (rp, p) (isort entry_leb (patch_files_of ov))) by (apply lookup_In, Hlk2).
+    destruct (patch_loop_ok merge3 git_apply diff o (bl_files bl) (bl_base bl) (w_up w) _ _ _ _ _ _ _ Hnd2 Hloop)
+      as (S1 & S2 & S3 & S4 & S5 & S6 & S7).
+    destruct (S2 _ _ Hin) as (a & art & t & n & cf & Hg). exists a, art, t, n, cf.
+    split; [exact Hg|]. simpl.
+    split; [rewrite S1, Hlk2; unfold pfile in Hg; rewrite Hg, Hlk; reflexivity|].
+    split; [|split; [|split; [|split]]].
+    - intros rt c ->. rewrite S3. erewrite art_of_In; [reflexivity|exact Hnd2|exact Hin|exact Hg].
+    - intros ->. apply In_isort. apply S4. right. eauto 8.
+    - intros ->. apply In_isort. apply S5. right. eauto 8.
+    - intros ->. apply In_isort. apply S6. right. eauto 8.
+    - intros ->. apply In_isort. apply S7. right. eauto 8.
+  Qed.
+
+  (* what the module materialises to at [rt] under the overlay's patch for it, taken alone *)
+  Definition patch_result (ps : files) (up : fmap) (rt : rel) : option content :=
+    match lookup (rt ++ dot_patch) ps with
+    | Some p => match up rt with Some u => git_apply p rt u | None => None end
+    | None => up rt
+    end.
+
+  (* git's contract, as far as the statements below need it *)
+  Definition diff_law : Prop :=
+    forall r a b, match diff r a b with
+                  | Some p => utf8_valid p = true /\ patch_header_ok r (utf8_decode p) = true /\ git_apply p r a = Some b
+                  | None => a = b
+                  end.
+  Definition merge_trivial_law : Prop :=
+    forall b x, merge3 b b x = Some (x, false) /\ merge3 b x b = Some (x, false).
+  Definition merge_utf8_law : Prop :=
+    forall b x u m c, merge3 b x u = Some (m, c) -> utf8_valid b = true -> utf8_valid x = true -> utf8_valid u = true ->
+                      utf8_valid m = true.
+  Definition apply_utf8_law : Prop :=
+    forall p r b c, git_apply p r b = Some c -> utf8_valid p = true -> utf8_valid b = true -> utf8_valid c = true.
+
+  (* C14_cases / no_silent_loss / conflict_reported for one patch file, in one statement: every
+     patch file of a completed, non-dry rebase falls in exactly one of these outcomes *)
+  Theorem patch_outcome o w ov ov' rep bl rp p :
+    patch_run o w ov ov' rep bl -> dry_run o = false -> is_patch ov rp p ->
+    (* not a *.patch name, or a target the baseline does not track: skipped, untouched *)
+    (lookup rp (ov_patches ov') = Some p /\
+     ((strip_suffix dot_patch rp = None /\ In rp (skipped rep)) \/
+      (exists rt, rp = rt ++ dot_patch /\ bl_files bl rt = None /\ In rt (skipped rep))))
+    \/ exists rt b ours, rp = rt ++ dot_patch /\ bl_files bl rt = Some b /\ bl_base bl rt = Some b /\
+         git_apply p rt b = Some ours /\
+         ( (* upstream deleted the file: conflict, the edited text kept in the artefact, patch untouched *)
+           (w_up w rt = None /\ In rt (conflicts rep) /\ lookup rp (ov_patches ov') = Some p /\
+            lookup rt (ov_conflicts ov') = Some (markers_deleted ours))
+           \/ exists u m, w_up w rt = Some u /\
+              ( (* conflict: reported, artefact = merge-file output, patch rewritten to produce it *)
+                (merge3 b ours u = Some (m, true) /\ In rt (conflicts rep) /\
+                 lookup rt (ov_conflicts ov') = Some m /\
+                 lookup rp (ov_patches ov') = match diff rt u m with Some p' => Some p' | None => Some p end)
+                \/ (* clean merge: the patch becomes diff(upstream', merged), or disappears when equal *)
+                (merge3 b ours u = Some (m, false) /\
+                 ((diff rt u m = None /\ lookup rp (ov_patches ov') = None /\ In rt (deleted rep)) \/
+                  (exists p', diff rt u m = Some p' /\ lookup rp (ov_patches ov') = Some p' /\ In rt (updated rep)))))).
+  Proof.
+    intros Hrun Hd Hp.
+    destruct (rebase_patch_at _ _ _ _ _ _ _ _ Hrun Hp) as (a & art & t & n & cf & Hg & Hl & Hart & Hu & Hdl & Hs & Hc).
+    rewrite Hl. clear Hl. unfold pfile in Hg.
+    split_patch Hg; inversion Hg; subst; clear Hg; eqb_prop; subst;
+      repeat match goal with Hs : strip_suffix dot_patch rp = Some _ |- _ => apply strip_suffix_some in Hs; subst rp end;
+      try congruence.
+    all: simpl after.
+    all: first
+      [ solve [left; split; [reflexivity|]; left; split; auto]
+      | solve [left; split; [reflexivity|]; right; eexists; repeat split; auto]
+      | right; do 3 eexists; split; [reflexivity|]; split; [eassumption|]; split; [eassumption|]; split; [eassumption|];
+        first
+        [ solve [left; split; [assumption|]; split; [auto|]; split; [reflexivity|]; apply Hart; reflexivity]
+        | right; do 2 eexists; split; [eassumption|];
+          first
+          [ solve [left; split; [eassumption|]; split; [auto|]; split; [apply Hart; reflexivity|];
+                   repeat match goal with H : diff _ _ _ = _ |- _ => rewrite H end; reflexivity]
+          | solve [right; split; [eassumption|]; left; repeat split; auto]
+          | solve [right; split; [eassumption|]; right; eexists; repeat split; auto] ] ] ].
+  Qed.
+
+  (* C14_cases for patch overlays: under git's diff/apply contract the rebased patch, applied to the
+     new upstream, yields the merge-file output *)
+  Theorem patch_cases o w ov ov' rep bl rt p b u :
+    diff_law ->
+    patch_run o w ov ov' rep bl -> dry_run o = false -> is_patch ov (rt ++ dot_patch) p ->
+    bl_files bl rt = Some b -> w_up w rt = Some u ->
+    exists ours m c, git_apply p rt b = Some ours /\ merge3 b ours u = Some (m, c) /\
+      (c = false \/ diff rt u m <> None -> patch_result (ov_patches ov') (w_up w) rt = Some m) /\
+      (c = true -> In rt (conflicts rep) /\ lookup rt (ov_conflicts ov') = Some m) /\
+      (c = false -> ~ (lookup (rt ++ dot_patch) (ov_patches ov') = None /\ m <> u)).
+  Proof.
+    intros Hlaw Hrun Hd Hp Hb Hu.
+    destruct (patch_outcome _ _ _ _ _ _ _ _ Hrun Hd Hp) as [[_ [[Hs _]|(rt' & Hrt & Hn & _)]]|(rt' & b' & ours & Hrt & Hb' & _ & Hap & Hcase)].
+    - exfalso. unfold strip_suffix in Hs. rewrite rev_app_distr in Hs.
+      assert (Hx : strip_prefix (rev dot_patch) (rev dot_patch ++ rev rt) = Some (rev rt)).
+      { clear. induction (rev dot_patch) as [|a l IH]; simpl; [reflexivity|]. rewrite N.eqb_refl. exact IH. }
+      rewrite Hx in Hs. discriminate.
+    - apply app_inv_tail in Hrt. subst rt'. congruence.
+    - apply app_inv_tail in Hrt. subst rt'. rewrite Hb in Hb'. inversion Hb'; subst b'.
+      destruct Hcase as [(Hnone & _)|(u' & m & Hu' & Hcase)]; [congruence|].
+      rewrite Hu in Hu'. inversion Hu'; subst u'.
+      unfold patch_result. rewrite Hu.
+      destruct Hcase as [(Hm & Hc & Hart & Hl)|(Hm & [(Hdf & Hl & _)|(p' & Hdf & Hl & _)])].
+      + exists ours, m, true. repeat split; auto; try discriminate.
+        intros [Hx|Hx]; [discriminate|]. rewrite Hl.
+        specialize (Hlaw rt u m). destruct (diff rt u m) as [p'|]; [|congruence]. apply Hlaw.
+      + exists ours, m, false. repeat split; auto; try discriminate.
+        * intros _. rewrite Hl. specialize (Hlaw rt u m). rewrite Hdf in Hlaw. congruence.
+        * intros _ [_ Hne]. specialize (Hlaw rt u m). rewrite Hdf in Hlaw. congruence.
+      + exists ours, m, false. repeat split; auto; try discriminate.
+        * intros _. rewrite Hl. specialize (Hlaw rt u m). rewrite Hdf in Hlaw. apply Hlaw.
+        * intros _ [Hx _]. congruence.
+  Qed.
+
+  (* ---- the dry run of a patch overlay ---- *)
+  Definition pstrip (x : pout) : str + (tag * rel * bool) :=
+    match x with PErr c => inl c | POk _ _ t n cf => inr (t, n, cf) end.
+
+  Lemma patch_file_dry_keep s bl base up rp p a art t n cf :
+    rebase_patch_file merge3 git_apply diff (mkOpts true s) bl base up rp p = POk a art t n cf ->
+    a = AKeep /\ art = None.
+  Proof. intros H. split_patch H; inversion H; auto. Qed.
+
+  Lemma patch_file_dry_same s bl base up rp p :
+    apply_utf8_law ->
+    pstrip (rebase_patch_file merge3 git_apply diff (mkOpts true s) bl base up rp p) =
+    pstrip (rebase_patch_file merge3 git_apply diff (mkOpts false s) bl base up rp p).
+  Proof.
+    intros Hlaw. unfold rebase_patch_file, do_write, do_delete; simpl.
+    repeat (match goal with
+            | |- context[match ?x with _ => _ end] =>
+              lazymatch x with context[match _ with _ => _ end] => fail | _ => destruct x eqn:? end
+            end; simpl); try reflexivity.
+    eqb_prop. exfalso.
+    match goal with Ha : git_apply _ _ _ = Some ?c, Hv : utf8_valid ?c = false |- _ =>
+      rewrite (Hlaw _ _ _ _ Ha) in Hv by assumption; discriminate end.
+  Qed.
+
+  Lemma patch_loop_dry s bl base up : apply_utf8_law -> forall todo ps1 cfs1 ps2 cfs2 rep,
+    patch_loop merge3 git_apply diff (mkOpts true s) bl base up todo ps1 cfs1 rep =
+    (ps1, cfs1, snd (patch_loop merge3 git_apply diff (mkOpts false s) bl base up todo ps2 cfs2 rep)).
+  Proof.
+    intros Hlaw. induction todo as [|[rp p] rest IH]; intros ps1 cfs1 ps2 cfs2 rep; simpl; [reflexivity|].
+    pose proof (patch_file_dry_same s bl base up rp p Hlaw) as Hs.
+    destruct (rebase_patch_file merge3 git_apply diff (mkOpts true s) bl base up rp p) as [c|a art t n cf] eqn:E1;
+      destruct (rebase_patch_file merge3 git_apply diff (mkOpts false s) bl base up rp p) as [c2|a2 art2 t2 n2 cf2] eqn:E2;
+      simpl in Hs; try discriminate Hs.
+    - inversion Hs; reflexivity.
+    - inversion Hs; subst. apply patch_file_dry_keep in E1 as [-> ->]. simpl. apply IH.
+  Qed.
+
+  Theorem patch_dry s w ov :
+    apply_utf8_law -> ov_kind ov = KPatch ->
+    rebase (mkOpts true s) w ov = (ov, snd (rebase (mkOpts false s) w ov)).
+  Proof.
+    intros Hlaw Hk. unfold rebase_overlay. rewrite Hk.
+    destruct (ov_exists ov) eqn:Hex; simpl; [|reflexivity].
+    destruct (ov_baseline ov) as [bl|] eqn:Hbl; [|reflexivity].
+    destruct (negb (nilb (ov_files ov)) && negb (nilb (patch_files_of ov))); [reflexivity|].
+    destruct (negb (nilb (ov_files ov))); [reflexivity|].
+    destruct (bl_rev bl); [|reflexivity].
+    rewrite (patch_loop_dry s (bl_files bl) (bl_base bl) (w_up w) Hlaw _ (ov_patches ov) (ov_conflicts ov)
+                            (ov_patches ov) (ov_conflicts ov) empty_report).
+    destruct (patch_loop merge3 git_apply diff (mkOpts false s) (bl_files bl) (bl_base bl) (w_up w)
+                         (isort entry_leb (patch_files_of ov)) (ov_patches ov) (ov_conflicts ov) empty_report)
+      as [[ps cfs] [c|rep]]; simpl; destruct ov; simpl in *; subst; reflexivity.
+  Qed.
+
+  (* without the law: a dry run still never changes the overlay *)
+  Lemma patch_loop_dry_state s bl base up : forall todo ps cfs rep,
+    fst (patch_loop merge3 git_apply diff (mkOpts true s) bl base up todo ps cfs rep) = (ps, cfs).
+  Proof.
+    induction todo as [|[rp p] rest IH]; intros ps cfs rep; simpl; [reflexivity|].
+    destruct (rebase_patch_file merge3 git_apply diff (mkOpts true s) bl base up rp p) as [c|a art t n cf] eqn:E1; [reflexivity|].
+    apply patch_file_dry_keep in E1 as [-> ->]. simpl. apply IH.
+  Qed.
+
+  Theorem dry_state_unchanged s w ov : fst (rebase (mkOpts true s) w ov) = ov.
+  Proof.
+    unfold rebase_overlay.
+    destruct (ov_exists ov) eqn:Hex; simpl; [|reflexivity].
+    destruct (ov_baseline ov) as [bl|] eqn:Hbl; [|reflexivity].
+    destruct (negb (nilb (ov_files ov)) && negb (nilb (patch_files_of ov))); [reflexivity|].
+    destruct (ov_kind ov) eqn:Hk.
+    - destruct (negb (nilb (patch_files_of ov))); [reflexivity|].
+      destruct (bl_rev bl); [|reflexivity].
+      rewrite (dir_loop_dry merge3 s (bl_files bl) (bl_base bl) (w_up w) _ (ov_files ov) (ov_files ov) empty_report).
+      destruct (snd (dir_loop merge3 (mkOpts false s) (bl_files bl) (bl_base bl) (w_up w) (isort entry_leb (ov_files ov)) (ov_files ov) empty_report));
+        simpl; destruct ov; simpl in *; subst; reflexivity.
+    - destruct (negb (nilb (ov_files ov))); [reflexivity|].
+      destruct (bl_rev bl); [|reflexivity].
+      pose proof (patch_loop_dry_state s (bl_files bl) (bl_base bl) (w_up w) (isort entry_leb (patch_files_of ov))
+                                       (ov_patches ov) (ov_conflicts ov) empty_report) as Hst.
+      destruct (patch_loop merge3 git_apply diff (mkOpts true s) (bl_files bl) (bl_base bl) (w_up w)
+                           (isort entry_leb (patch_files_of ov)) (ov_patches ov) (ov_conflicts ov) empty_report)
+        as [[ps cfs] [c|rep]]; simpl in Hst; inversion Hst; subst; simpl; destruct ov; simpl in *; subst; reflexivity.
+  Qed.
+
+  (* ---- idempotence of a patch overlay rebase ---- *)
+
+  Lemma set_key_same r c l : lookup r l = Some c -> set_key r c l = l.
+  Proof.
+    induction l as [|[k c0] t IH]; simpl; intros H; [discriminate|].
+    destruct (str_eqb k r) eqn:E; [inversion H; reflexivity|]. f_equal. apply IH, H.
+  Qed.
+
+  Lemma rebase_patch_frame o w ov ov' rep bl :
+    patch_run o w ov ov' rep bl ->
+    (forall rp, lookup rp (ov_patches ov) = None -> lookup rp (ov_patches ov') = None) /\
+    (forall rt, (forall rp p a c t n cf, is_patch ov rp p -> pfile o bl w rp p <> POk a (Some (rt, c)) t n cf) ->
+                lookup rt (ov_conflicts ov') = lookup rt (ov_conflicts ov)) /\
+    ov' = mkOv true KPatch (ov_files ov) (ov_patches ov') (ov_conflicts ov') (refreshed o w (Some bl)) /\
+    nilb (ov_files ov) = true /\ bl_rev bl <> None /\ ov_exists ov = true.
+  Proof.
+    intros (Hk & Hnd & Hbl & H). unfold rebase_overlay in H.
+    destruct (ov_exists ov) eqn:Hex; simpl in H; [|inversion H].
+    rewrite Hbl in H.
+    destruct (negb (nilb (ov_files ov)) && negb (nilb (patch_files_of ov))); [inversion H|].
+    rewrite Hk in H.
+    destruct (nilb (ov_files ov)) eqn:Hnf; simpl in H; [|inversion H].
+    destruct (bl_rev bl) as [revn|] eqn:Hrev; [|inversion H].
+    destruct (patch_loop merge3 git_apply diff o (bl_files bl) (bl_base bl) (w_up w) (isort entry_leb (patch_files_of ov))
+                         (ov_patches ov) (ov_conflicts ov) empty_report) as [[ps cfs] [c|rep0]] eqn:Hloop;
+      inversion H; subst; clear H.
+    assert (Hndp : NoDup (keys (patch_files_of ov))) by (apply NoDup_filter_keys, Hnd).
+    assert (Hperm : Permutation (patch_files_of ov) (isort entry_leb (patch_files_of ov))) by apply isort_perm.
+    assert (Hnd2 : NoDup (keys (isort entry_leb (patch_files_of ov)))).
+    { eapply Permutation_NoDup; [apply Permutation_map, Hperm|exact Hndp]. }
+    destruct (patch_loop_ok merge3 git_apply diff o (bl_files bl) (bl_base bl) (w_up w) _ _ _ _ _ _ _ Hnd2 Hloop)
+      as (S1 & S2 & S3 & _).
+    simpl. repeat split; try reflexivity; try congruence.
+    - intros rp Hn. rewrite S1.
+      assert (Hl : lookup rp (isort entry_leb (patch_files_of ov)) = None).
+      { rewrite <- (lookup_perm _ _ rp Hndp Hperm). unfold patch_files_of. rewrite lookup_filter_key, Hn.
+        destruct (has_patch_ext rp); reflexivity. }
+      rewrite Hl. exact Hn.
+    - intros rt Hno. rewrite S3. rewrite art_of_None; [reflexivity|].
+      intros rp p a c t n cf Hin. apply In_isort in Hin.
+      apply (Hno rp p a c t n cf). unfold patch_files_of in Hin. apply filter_In in Hin as [Hin Hext]. simpl in Hext.
+      split; [exact Hext|apply In_lookup; assumption].
+  Qed.
+
+  Lemma patch_loop_same o bl base up : forall todo ps cfs rep,
+    (forall rp p, In (rp, p) todo ->
+        lookup rp ps = Some p /\
+        exists a t n, rebase_patch_file merge3 git_apply diff o bl base up rp p = POk a None t n false /\
+                      (a = AKeep \/ a = AWrite p) /\ t <> TDeleted) ->
+    exists rep', patch_loop merge3 git_apply diff o bl base up todo ps cfs rep = (ps, cfs, inr rep') /\
+                 deleted rep' = deleted rep /\ conflicts rep' = conflicts rep.
+  Proof.
+    induction todo as [|[rp p] rest IH]; intros ps cfs rep H; simpl.
+    - exists rep. repeat split; reflexivity.
+    - destruct (H rp p (or_introl eq_refl)) as (Hlk & a & t & n & Hg & Ha & Ht). rewrite Hg.
+      assert (Hst : apply_act rp a ps = ps).
+      { destruct Ha; subst a; simpl; [reflexivity|apply set_key_same, Hlk]. }
+      rewrite Hst. simpl.
+      destruct (IH ps cfs (add_rep n t false rep)) as (rep' & Hl & H1 & H2).
+      { intros rp' p' Hin. apply H. right. exact Hin. }
+      exists rep'. split; [exact Hl|]. rewrite H1, H2. destruct t; try congruence; repeat split; reflexivity.
+  Qed.
+
+  (* a patch whose target the old baseline did not track must not meet a file newly added upstream:
+     such a dangling patch was refused by the composition all along (E_CONFIG_INVALID, patch target
+     missing) and has no base to be rebased from *)
+  Definition no_dangling_adoption (w : world) (ov : overlay) (bl : baseline) : Prop :=
+    forall rt p, is_patch ov (rt ++ dot_patch) p -> bl_files bl rt = None -> w_up w rt = None.
+
+  Theorem patch_idempotent o w ov ov1 rep1 bl :
+    diff_law -> merge_trivial_law -> merge_utf8_law ->
+    patch_run o w ov ov1 rep1 bl -> dry_run o = false -> conflicts rep1 = [] ->
+    (forall r, w_head w r = w_up w r) -> w_rev w <> None ->
+    no_dangling_adoption w ov bl ->
+    exists rep2, rebase o w ov1 = (ov1, inr rep2) /\ deleted rep2 = [] /\ conflicts rep2 = [].
+  Proof.
+    intros Ldiff Lmerge Lutf Hrun Hd Hnc Hclean Hrev Hdang.
+    destruct (rebase_patch_frame _ _ _ _ _ _ Hrun) as (F1 & _ & Hov1 & Hnf & _ & _).
+    unfold refreshed in Hov1. rewrite Hd in Hov1.
+    assert (Hsame : forall rp p1, In (rp, p1) (isort entry_leb (patch_files_of ov1)) ->
+              lookup rp (ov_patches ov1) = Some p1 /\
+              exists a t n, rebase_patch_file merge3 git_apply diff o (w_up w) (w_head w) (w_up w) rp p1 = POk a None t n false /\
+                            (a = AKeep \/ a = AWrite p1) /\ t <> TDeleted).
+    { intros rp p1 Hin. apply In_isort in Hin. unfold patch_files_of in Hin. apply filter_In in Hin as [Hin Hext].
+      simpl in Hext.
+      assert (Hnd1 : NoDup (keys (ov_patches ov1))).
+      { destruct Hrun as (Hk & Hnd & Hbl & H). unfold rebase_overlay in H.
+        destruct (ov_exists ov); simpl in H; [|inversion H]. rewrite Hbl in H.
+        destruct (negb (nilb (ov_files ov)) && negb (nilb (patch_files_of ov))); [inversion H|].
+        rewrite Hk in H. destruct (negb (nilb (ov_files ov))); [inversion H|].
+        destruct (bl_rev bl); [|inversion H].
+        destruct (patch_loop merge3 git_apply diff o (bl_files bl) (bl_base bl) (w_up w) (isort entry_leb (patch_files_of ov))
+                             (ov_patches ov) (ov_conflicts ov) empty_report) as [[ps cfs] [c|rep0]] eqn:Hloop;
+          inversion H; subst; clear H. simpl.
+        clear - Hnd Hloop.
+        revert Hnd Hloop. generalize (isort entry_leb (patch_files_of ov)) (ov_patches ov) (ov_conflicts ov) empty_report.
+        induction l as [|[r0 p0] rest IH]; intros ps0 cfs0 rep Hnd H; simpl in H; [inversion H; subst; exact Hnd|].
+        destruct (rebase_patch_file merge3 git_apply diff o (bl_files bl) (bl_base bl) (w_up w) r0 p0); [discriminate|].
+        eapply IH; [|exact H]. apply NoDup_apply_act, Hnd. }
+      assert (Hlk1 : lookup rp (ov_patches ov1) = Some p1) by (apply In_lookup; assumption).
+      split; [exact Hlk1|].
+      destruct (lookup rp (ov_patches ov)) as [p|] eqn:Hlk; [|rewrite (F1 _ Hlk) in Hlk1; discriminate].
+      assert (Hp : is_patch ov rp p) by (split; assumption).
+      destruct (patch_outcome _ _ _ _ _ _ _ _ Hrun Hd Hp)
+        as [[Hl [[Hs _]|(rt & Hrt & Hn & _)]]|(rt & b & ours & Hrt & Hb & Hbase & Hap & Hcase)].
+      - (* not a .patch name *)
+        exists AKeep, TSkipped, rp. unfold rebase_patch_file. rewrite Hs. repeat split; auto; discriminate.
+      - (* untracked target: still absent upstream *)
+        subst rp. rewrite Hl in Hlk1. inversion Hlk1; subst p1.
+        pose proof (Hdang _ _ Hp Hn) as Hup.
+        assert (Hss : strip_suffix dot_patch (rt ++ dot_patch) = Some rt).
+        { destruct Hrun as (_ & _ & _ & _).
+          destruct (rebase_patch_at _ _ _ _ _ _ _ _ Hrun Hp) as (a & art & t & n & cf & Hg & _).
+          apply patch_name in Hg as [[Hx _]|[Hx Hy]].
+          - exfalso. unfold strip_suffix in Hx. rewrite rev_app_distr in Hx.
+            assert (Hz : strip_prefix (rev dot_patch) (rev dot_patch ++ rev rt) = Some (rev rt)).
+            { clear. induction (rev dot_patch) as [|x l IH]; simpl; [reflexivity|]. rewrite N.eqb_refl. exact IH. }
+            rewrite Hz in Hx. discriminate.
+          - apply app_inv_tail in Hx. subst n. exact Hy. }
+        destruct (rebase_patch_at _ _ _ _ _ _ _ _ Hrun Hp) as (a & art & t & n & cf & Hg & _).
+        unfold pfile, rebase_patch_file in Hg. rewrite Hss in Hg.
+        destruct (valid_relpath rt) eqn:Hv; simpl in Hg; [|discriminate].
+        exists AKeep, TSkipped, rt. unfold rebase_patch_file. rewrite Hss, Hv, Hup. simpl.
+        repeat split; auto; discriminate.
+      - subst rp.
+        destruct Hcase as [(Hup & Hc & _)|(u & m & Hup & [(Hm & Hc & _)|(Hm & Hdf)])];
+          try (rewrite Hnc in Hc; destruct Hc).
+        destruct (rebase_patch_at _ _ _ _ _ _ _ _ Hrun Hp) as (a & art & t & n & cf & Hg & _).
+        unfold pfile in Hg.
+        assert (Hfacts : strip_suffix dot_patch (rt ++ dot_patch) = Some rt /\ valid_relpath rt = true /\
+                         utf8_valid b = true /\ utf8_valid ours = true /\ utf8_valid u = true).
+        { split_patch Hg; inversion Hg; subst; eqb_prop;
+            repeat match goal with Hs : strip_suffix dot_patch _ = Some _ |- _ =>
+                     pose proof (strip_suffix_some _ _ _ Hs) as Hx; apply app_inv_tail in Hx; subst; clear Hs end;
+            try congruence;
+            repeat match goal with
+                   | H1 : ?x = Some _, H2 : ?x = Some _ |- _ => rewrite H1 in H2; inversion H2; subst; clear H2
+                   end; repeat split; try assumption;
+            match goal with |- strip_suffix _ _ = _ => idtac | _ => fail end;
+            unfold strip_suffix; rewrite rev_app_distr;
+            match goal with |- context[strip_prefix ?a (?a ++ ?b)] =>
+              assert (Hz : strip_prefix a (a ++ b) = Some b) by (clear; induction a as [|x l IH]; simpl; [reflexivity|]; rewrite N.eqb_refl; exact IH);
+              rewrite Hz end; rewrite rev_involutive; reflexivity. }
+        destruct Hfacts as (Hss & Hv & Hub & Huo & Huu).
+        destruct Hdf as [(Hdf & Hl & _)|(p' & Hdf & Hl & _)]; [congruence|].
+        rewrite Hl in Hlk1. inversion Hlk1; subst p1.
+        pose proof (Ldiff rt u m) as Hd1. rewrite Hdf in Hd1. destruct Hd1 as (Hup' & Hhd & Hap').
+        assert (Hum : utf8_valid m = true) by (eapply Lutf; eassumption).
+        exists (AWrite p'), TUpdated, rt.
+        unfold rebase_patch_file. rewrite Hss, Hv, Hup, Hclean, Hup, str_eqb_refl. simpl.
+        rewrite Huu, Hup', Hhd. simpl. rewrite Hap', Huu, Hum. simpl.
+        destruct (Lmerge u m) as [_ Hm2]. rewrite Hm2, Hdf. unfold do_write. rewrite Hd.
+        repeat split; auto; discriminate. }
+    destruct (patch_loop_same o (w_up w) (w_head w) (w_up w) _ (ov_patches ov1) (ov_conflicts ov1) empty_report Hsame)
+      as (rep' & Hloop & H1 & H2).
+    exists (sort_report rep').
+    destruct ov1 as [e1 k1 f1 p1 c1 b1]. simpl in *. inversion Hov1; subst e1 k1 f1 b1. clear Hov1.
+    unfold rebase_overlay. simpl. rewrite Hnf. simpl.
+    destruct (w_rev w) eqn:Hw; [|congruence].
+    unfold patch_files_of in *. simpl in *. rewrite Hloop. unfold refreshed. rewrite Hd. simpl. rewrite Hw.
+    split; [reflexivity|]. rewrite H1, H2. simpl. split; reflexivity.
+  Qed.
+End PatchTop.
